@@ -74,7 +74,7 @@ def main():
             rc, out = sh("./check %s --tier quick" % pid, cwd=VERIF, env=env, timeout=3600)
             lines = [l for l in out.splitlines() if l.startswith(("VIOLATION", "RESULT", "INFRA", "SPEC-DRIFT", "KNOWN"))]
             first = next((out.splitlines()[i + 1].strip() for i, l in enumerate(out.splitlines()) if l.startswith("VIOLATION") and i + 1 < len(out.splitlines())), "")
-            checks[pid] = {"exit": rc, "caught": rc == 1, "wall_s": round(time.time() - t0, 1), "result": next((l for l in lines if l.startswith("RESULT")), ""),
+            checks[pid] = {"exit": rc, "caught": rc == 1, "wall_s": round(time.time() - t0, 1), "result": next((l for l in lines if l.startswith("RESULT")), "") or next((l for l in out.splitlines() if "INFRA" in l or "rror" in l), "")[:300],
                            "first_violation": first[:400], "drift_lines": sum(1 for l in lines if l.startswith("SPEC-DRIFT"))}
             print("check", pid, "exit", rc, checks[pid]["result"], "|", first[:200])
         dst = os.path.join(VERIF, "seeded", sid)
